@@ -48,22 +48,37 @@ def main():
           and meta["verified"]["demo_with_change_exit"] != 0 and meta["verified"]["suite_with_change"]["failed"] == 0
           and meta["verified"]["suite_with_change"]["passed"] >= 140)
     meta["verified"]["all_confirmed"] = bool(ok)
-    # run the checks against /repo with the change applied
-    rc, out = sh("git -C /repo status --porcelain")
-    assert out.strip() == "", "repo not clean: " + out
-    rc, out = sh(f"git -C /repo apply {patch}")
-    assert rc == 0, out
+    scratch = "--scratch" in sys.argv
+    env = None
+    if scratch:
+        # same checks against a scratch copy (used while a background run is reading /repo)
+        sdir = tempfile.mkdtemp(prefix="seedscratch_")
+        shutil.copytree("/repo/npstructures", os.path.join(sdir, "npstructures"))
+        rc, out = sh(f"patch -p1 -s -d {sdir} < {patch}")
+        assert rc == 0, out
+        env = dict(os.environ, DSIM_REPO=sdir)
+        meta["applied_to"] = "scratch copy via DSIM_REPO"
+    else:
+        # run the checks against /repo with the change applied
+        rc, out = sh("git -C /repo status --porcelain")
+        assert out.strip() == "", "repo not clean: " + out
+        rc, out = sh(f"git -C /repo apply {patch}")
+        assert rc == 0, out
+        meta["applied_to"] = "/repo (git apply, undone afterwards)"
     try:
         for p in props:
             t0 = time.time()
-            rc, out = sh(f"timeout 900 /venv/bin/python -m dsim check {p} --tier quick --no-evidence", cwd="/verif")
+            rc, out = sh(f"timeout 900 /venv/bin/python -m dsim check {p} --tier quick --no-evidence", cwd="/verif", env=env)
             viol = [l for l in out.splitlines() if l.startswith("VIOLATION")]
             meta["checks_run"][p] = {"cmd": f"/venv/bin/python -m dsim check {p} --tier quick", "exit": rc,
                                      "violation_lines": len(viol), "wall_s": round(time.time() - t0, 1),
                                      "first_report": out.splitlines()[:14] if viol else out.splitlines()[-2:]}
             print(p, "exit", rc, len(viol), "violation lines")
     finally:
-        sh("git -C /repo checkout -- .")
+        if scratch:
+            shutil.rmtree(sdir, ignore_errors=True)
+        else:
+            sh("git -C /repo checkout -- .")
     rc, out = sh("git -C /repo status --porcelain")
     assert out.strip() == "", out
     meta["caught_by"] = [p for p, r in meta["checks_run"].items() if r["exit"] == 1]
